@@ -210,11 +210,22 @@ func execC18(t *testing.T, p Plan, src kernel.Source) Result {
 		for i, vs := range p.XV {
 			obsTasks = append(obsTasks, &task{name: fmt.Sprintf("obs%d", i), vals: vs})
 		}
-		reads := int(p.X["reads"])
-		reader := &task{name: "reader"}
-		var snaps []metricsSnapshot
+		// one or two scraping tasks: /metrics may be fetched by more than one collector at once
+		nreaders := 1
+		if p.X["readers"] > 1 {
+			nreaders = int(p.X["readers"])
+		}
+		var readers []*task
+		readsLeft := map[*task]int{}
+		snapsOf := map[string][]metricsSnapshot{}
+		for i := 0; i < nreaders; i++ {
+			r := &task{name: fmt.Sprintf("reader%d", i)}
+			readers = append(readers, r)
+			readsLeft[r] = int(p.X["reads"])
+		}
 		var incSum uint64
 		lastOwner := ""
+		obsLocks := map[string]bool{}
 		startObs := func(tk *task) {
 			v := tk.vals[tk.next]
 			tk.next++
@@ -235,40 +246,64 @@ func execC18(t *testing.T, p Plan, src kernel.Source) Result {
 				res.Infra = "step budget exhausted"
 				return
 			}
-			for _, tk := range append(append([]*task{}, obsTasks...), reader) {
+			for _, tk := range append(append([]*task{}, obsTasks...), readers...) {
 				if tk.busy {
 					select {
 					case <-tk.done:
 						tk.busy = false
-						if tk == reader {
-							snaps = append(snaps, tk.snap)
+						if strings.HasPrefix(tk.name, "reader") {
+							snapsOf[tk.name] = append(snapsOf[tk.name], tk.snap)
 						}
 					default:
 					}
 				}
 			}
 			evs := w.Internal()
+			// Reduction: a scrape walks every histogram registered in the process (about
+			// fifty), two scheduling points each. A reader's step on a lock that no observer
+			// has used in this run commutes with everything the other tasks can do, so it is
+			// taken at once instead of being offered as a choice; what is left to choose is
+			// the order around the harness histogram, where observers and readers meet.
+			for _, ev := range evs {
+				if strings.HasPrefix(ev.Owner, "obs") && ev.Obj != "" {
+					obsLocks[ev.Obj] = true
+				}
+			}
+			auto := false
+			for _, ev := range evs {
+				if strings.HasPrefix(ev.Owner, "reader") && ev.Obj != "" && !obsLocks[ev.Obj] {
+					ev.Do()
+					auto = true
+					break
+				}
+			}
+			if auto {
+				continue
+			}
 			for _, tk := range obsTasks {
 				tk := tk
 				if !tk.busy && tk.next < len(tk.vals) {
 					evs = append(evs, kernel.Event{Label: "observe " + tk.name, Owner: tk.name, Do: func() { startObs(tk) }})
 				}
 			}
-			if !reader.busy && reads > 0 {
-				evs = append(evs, kernel.Event{Label: "read", Owner: "reader", Do: func() {
-					reads--
-					reader.busy = true
-					reader.done = make(chan struct{})
-					go func() {
-						w.Run.NameGoroutine("reader")
-						reader.snap = readMetrics()
-						close(reader.done)
-					}()
-				}})
+			for _, reader := range readers {
+				reader := reader
+				if !reader.busy && readsLeft[reader] > 0 {
+					evs = append(evs, kernel.Event{Label: "read " + reader.name, Owner: reader.name, Do: func() {
+						readsLeft[reader]--
+						reader.busy = true
+						reader.done = make(chan struct{})
+						go func() {
+							w.Run.NameGoroutine(reader.name)
+							reader.snap = readMetrics()
+							close(reader.done)
+						}()
+					}})
+				}
 			}
 			if len(evs) == 0 {
 				stuck := false
-				for _, tk := range append(append([]*task{}, obsTasks...), reader) {
+				for _, tk := range append(append([]*task{}, obsTasks...), readers...) {
 					if tk.busy {
 						stuck = true
 					}
@@ -299,7 +334,6 @@ func execC18(t *testing.T, p Plan, src kernel.Source) Result {
 		lockLog := append([]hub.LockEvent(nil), w.Run.LockLog...)
 		w.Run.ManagePkgs, w.Run.YieldAtomics, w.Run.YieldAfterUnlock = nil, false, false
 		final := readMetrics()
-		snaps = append(snaps, final)
 		// periods from the lock log of the harness histogram's lock
 		histLock := ""
 		for _, e := range lockLog {
@@ -308,7 +342,11 @@ func execC18(t *testing.T, p Plan, src kernel.Source) Result {
 				break
 			}
 		}
+		// a period ends when a scrape takes the histogram's write lock; the scrape that took
+		// it is the one that must report the period
 		periods := [][]uint64{{}}
+		var snaps []metricsSnapshot
+		readIdx := map[string]int{}
 		seen := map[string]int{}
 		valsOf := map[string][]uint64{}
 		for _, tk := range obsTasks {
@@ -323,13 +361,24 @@ func execC18(t *testing.T, p Plan, src kernel.Source) Result {
 				v := valsOf[e.Who][seen[e.Who]]
 				seen[e.Who]++
 				periods[len(periods)-1] = append(periods[len(periods)-1], v)
-			case e.Op == "lock" && e.Who == "reader":
+			case e.Op == "lock" && strings.HasPrefix(e.Who, "reader"):
+				if readIdx[e.Who] >= len(snapsOf[e.Who]) {
+					res.Infra = fmt.Sprintf("period bookkeeping: %s took the histogram lock %d times in %d reads", e.Who, readIdx[e.Who]+1, len(snapsOf[e.Who]))
+					return
+				}
+				snaps = append(snaps, snapsOf[e.Who][readIdx[e.Who]])
+				readIdx[e.Who]++
 				periods = append(periods, []uint64{})
 			}
 		}
 		if histLock == "" {
-			periods = make([][]uint64, len(snaps))
+			// no observation was made: every read reports an empty period
+			for _, r := range readers {
+				snaps = append(snaps, snapsOf[r.name]...)
+			}
+			periods = make([][]uint64, len(snaps)+1)
 		}
+		snaps = append(snaps, final)
 		if len(periods) != len(snaps) {
 			res.Infra = fmt.Sprintf("period bookkeeping: %d periods from the lock log, %d reads", len(periods), len(snaps))
 			return
@@ -532,6 +581,11 @@ func genC18(seed uint64, tier string) Plan {
 		}
 		p.X["reads"] = int64(g.n(4))
 		p.X["coarse"] = int64(g.n(2))
+		if g.p(1, 3) {
+			// two collectors scraping at once
+			p.X["readers"] = 2
+			p.X["reads"] = int64(1 + g.n(2))
+		}
 	}
 	return p
 }
@@ -540,7 +594,7 @@ func init() {
 	register(&Prop{
 		ID: "C18", Gen: genC18, Exec: execC18,
 		Nontrivial: func(p Plan, r Result) bool { return true },
-		Rule:       "70% interleave runs: 1-4 observer tasks (1-4 observations each: small values, powers of two and neighbours, 2^63-1, random magnitudes; each followed by IncCounterBy(value) and IncCounter) and a reader task calling the real /metrics handler 0-2 times; every atomic operation of an observer and every lock operation of package metrics parks and is released by the kernel, so observers and the reader interleave at atomic-operation and lock granularity. Periods are reconstructed from the lock log (an observation belongs to the read that next takes the histogram's write lock). Per read: count = observations of the period, kept consistent, average, min and max equal, every percentile within [min,max] and one of the period's observations; counters equal the sum / number of increments. 20% bulk runs (no yields): 1..40 or {1,2,3,32767,32768,32769} (thorough also 65536, 65537, 100000) observations per period, several periods, three value distributions. 10% supplementary pure-input sweep (not simulation): bucket index read back through the bhist_* counters is non-decreasing in the value and its upper bound, from a table regenerated from the published Spectator algorithm, is >= the value. Not claimed: asm vs portable bit count; literal data-race freedom. Distinct = distinct plan hash",
+		Rule:       "70% interleave runs: 1-4 observer tasks (1-4 observations each: small values, powers of two and neighbours, 2^63-1, random magnitudes; each followed by IncCounterBy(value) and IncCounter) and one reader task (two in a third of the runs, i.e. overlapping scrapes) calling the real /metrics handler 0-3 times; every atomic operation of an observer and every lock operation of package metrics parks and is released by the kernel, so observers and the reader interleave at atomic-operation and lock granularity. Periods are reconstructed from the lock log (an observation belongs to the read - of whichever reader - that next takes the histogram's write lock). Per read: count = observations of the period, kept consistent, average, min and max equal, every percentile within [min,max] and one of the period's observations; counters equal the sum / number of increments. 20% bulk runs (no yields): 1..40 or {1,2,3,32767,32768,32769} (thorough also 65536, 65537, 100000) observations per period, several periods, three value distributions. 10% supplementary pure-input sweep (not simulation): bucket index read back through the bhist_* counters is non-decreasing in the value and its upper bound, from a table regenerated from the published Spectator algorithm, is >= the value. Not claimed: asm vs portable bit count; literal data-race freedom. Distinct = distinct plan hash",
 		Real:       []string{"metrics (counters, histograms, bucket histograms, /metrics endpoint via http.DefaultServeMux)"},
 		Stub:       []string{"sync/atomic and sync.RWMutex of package metrics (yield points owned by the kernel)", "observer and reader tasks", "HTTP transport (httptest.ResponseRecorder)"},
 		RaceTest:   "TestRaceMetrics",
